@@ -133,6 +133,18 @@ func SetTickLag(on bool) {
 	}
 }
 
+// SetTickNoSkip makes a late ticker deliver one (stale) tick per missed period instead of skipping the
+// missed periods: runs of several consecutive values that are earlier than a delayed one (on a real
+// machine they come from several processors handling the same ticker with stale clock readings).
+func SetTickNoSkip(on bool) {
+	if S != nil {
+		S.tickNoSkip = on
+	}
+}
+
+// TickNoSkip reports whether SetTickNoSkip is on.
+func TickNoSkip() bool { return S != nil && S.tickNoSkip }
+
 // DrawTickLag returns the delay (0 most of the time) the current tick of a ticker with the given period
 // suffers; drawn from the schedule stream.
 func DrawTickLag(period time.Duration) time.Duration {
